@@ -43,6 +43,8 @@ CHUNK = 1
 RUN_TIMEOUT = 600
 
 
+SEEDED_SCALE = {"quick": 1, "thorough": 3}      # multiplies the run counts of the sampled families in plan()
+
 def plan(tier):
     return [("soc", 48 if tier == "quick" else 3000)]
 
